@@ -193,6 +193,9 @@ func hashOf(v any) string {
 
 func (c *Ctx) writeEvidence() error {
 	cov := c.Cov
+	if c.Assumptions == nil {
+		c.Assumptions = []string{}
+	}
 	cov["evaluations"] = c.evaluations
 	cov["distinct_nontrivial"] = len(c.nontrivial)
 	if len(c.samples) > 0 {
